@@ -25,7 +25,7 @@ RULE = (
     "parent machine with one root-level event per actor operation: spawnChild with id / with id+systemId / anonymous (explicit ids in a prefix relation 'a' / 'ab', generated ids made of the names used for addressing), "
     "spawn_<service> action, sendTo by id / systemId / service key / unknown name, forwardTo, delayed sendTo with a "
     "send id, a second delayed send reusing the id, cancel(id), two id-less delayed sends of one event type to different addressees pending at once, stopChild by id / systemId, child spawning a grandchild that registers a systemId of its own, "
-    "escalate, TICK (virtual time passes), stop; BFS over operation sequences to the depth bound, deduplicated by "
+    "escalate, a re-entering self-transition of the root state, TICK (virtual time passes), stop; BFS over operation sequences to the depth bound, deduplicated by "
     "(canonical implementation state, reference-model state); after EVERY step the implementation is compared with a "
     "dictionary reference model: children map, registry, per-actor received sequence numbers, parent's "
     "acknowledgements, warnings for unresolvable/ambiguous targets, liveness of stopped actors and their descendants. "
@@ -43,7 +43,7 @@ ASSUMPTIONS = [
 ]
 ENGINES = ("sync", "async")
 OPS = ["SP_ID", "SP_SYS", "SP_ANON", "SP_ACT", "SEND_A", "SEND_SYS", "SEND_KEY", "SEND_UNK", "FWD", "SEND_D", "SEND_D2",
-       "CANCEL", "SEND_N", "STOP_A", "STOP_SYS", "GRAND", "ESC", "BEAT_START", "BEAT_CANCEL", "TICK", "STOP"]
+       "CANCEL", "SEND_N", "STOP_A", "STOP_SYS", "GRAND", "ESC", "BEAT_START", "BEAT_CANCEL", "ROOT_RE", "TICK", "STOP"]
 
 
 def seq_event(etype):
@@ -102,6 +102,9 @@ def make(rec) -> Dict[str, Any]:
         "BEAT_START": {"actions": [arm]},
         "BEAT": {"actions": ["beat", arm]},
         "BEAT_CANCEL": {"actions": [A.cancel("hb")]},
+        # a re-entering self-transition of the ROOT state: exits and re-enters every state of the machine; actors and pending
+        # delayed sends belong to the interpreter, not to a state, and are untouched
+        "ROOT_RE": {"target": "#m", "reenter": True},
     }
     cfg = {"id": "m", "initial": "s", "states": {"s": {}}, "on": on}
     return dict(cfg=cfg, services={"kid": kid}, actions={"ack": ack, "esc_seen": esc_seen, "beat": beat})
